@@ -424,6 +424,20 @@ class Frame:
     # ------------------------------------------------------------------ assignment
     def assign(self, target, val):
         if isinstance(target, ast.Name):
+            # let-naming: a compound symbolic int bound to a local gets a definitional constant, so that later
+            # products stay products of atoms (the mixed-radix reasoning of smt/values works on monomials)
+            # (never inside an L3 body: definitions there would depend on the generic loop index, which is substituted)
+            if isinstance(val, SInt) and not cur().family and (z3.is_add(val.z) or (z3.is_app(val.z) and val.z.decl().kind() == z3.Z3_OP_ITE)):
+                c = cur()
+                nz = c.fresh_int(target.id)
+                c.assume_raw(nz == val.z)
+                c.defs[nz.get_id()] = (nz, val.z)
+                if c.known_fast(val.z >= 1):
+                    c.pos_ids.add(nz.get_id())
+                    c.nonneg_ids.add(nz.get_id())
+                elif c.known_fast(val.z >= 0):
+                    c.nonneg_ids.add(nz.get_id())
+                val = SInt(nz, val.width)
             self.env[target.id] = val
         elif isinstance(target, (ast.Tuple, ast.List)):
             items = self.I.stdlib.concrete_iter(self.I, val)
